@@ -199,19 +199,31 @@ CASE_LIMIT = 120000
 
 
 def _big_stack():
-    import resource
+    """Raise the soft stack limit of THIS process to the hard limit; child processes (the extracted
+    driver, whose recursive functions are not all tail-recursive) inherit it.  Done once, in the
+    parent: a preexec_fn would run Python code between fork and exec in a process that has pool
+    threads, which can deadlock on the import lock."""
     try:
+        import resource
         soft, hard = resource.getrlimit(resource.RLIMIT_STACK)
-        resource.setrlimit(resource.RLIMIT_STACK, (hard, hard))
-    except (ValueError, OSError):
+        if soft != hard:
+            resource.setrlimit(resource.RLIMIT_STACK, (hard, hard))
+    except (ValueError, OSError, ImportError):
         pass
+
+
+_big_stack()
 
 
 def _run_driver_once(cases):
     data = "\n".join(" ".join(map(str, c)) for c in cases) + "\n"
     try:
-        r = subprocess.run([DRIVER], input=data, capture_output=True, text=True, timeout=3000,
-                           preexec_fn=_big_stack)
+        # the extracted model is linear in the size of a case; a run-away evaluation (unary numbers
+        # built from an absurd value recorded on a changed implementation, say) is cut short and the
+        # case isolated by bisection: bounded time and 6 GB of address space
+        limit = max(30, int(0.15 * len(cases)))
+        r = subprocess.run(["sh", "-c", "ulimit -v 6000000; exec \"$0\"", DRIVER], input=data, capture_output=True,
+                           text=True, timeout=limit)
     except subprocess.TimeoutExpired:
         return None
     if r.returncode != 0:
